@@ -11,8 +11,11 @@ import (
 	"testing/synctest"
 	"time"
 
+	"golang.org/x/net/bpf"
+
 	"github.com/DataDog/datadog-traceroute/common"
 	"github.com/DataDog/datadog-traceroute/icmp"
+	"github.com/DataDog/datadog-traceroute/packets"
 	"github.com/DataDog/datadog-traceroute/sack"
 	"github.com/DataDog/datadog-traceroute/tcp"
 	"github.com/DataDog/datadog-traceroute/udp"
@@ -75,6 +78,16 @@ type drvInst struct {
 	w      *caseWriter
 	tags   map[string]int
 	sackV  *sack.VerifDriver
+	vm     *bpf.VM // the capture filter the protocol's entry point installs for this run
+	vmHS   *bpf.VM // SACK: the filter in place while the handshake is read
+}
+
+func filterVM(spec packets.PacketFilterSpec) *bpf.VM {
+	prog, err := packets.VerifClassicBPF(spec)
+	if err != nil {
+		return nil
+	}
+	return mustVM(prog)
 }
 
 func addrOf(b []byte) netip.Addr { a, _ := netip.AddrFromSlice(b); return a }
@@ -94,6 +107,14 @@ func newDrvInst(c drvCfg, w *caseWriter, tags map[string]int) *drvInst {
 	d.src = newSimSource(nil)
 	d.snk = newSimSink(nil)
 	tp := common.TracerouteParams{MinTTL: uint8(c.first), MaxTTL: uint8(c.last), TracerouteTimeout: time.Second, PollFrequency: 10 * time.Millisecond, SendDelay: time.Millisecond}
+	switch c.variant {
+	case vIcmp, vUdp:
+		d.vm = filterVM(packets.PacketFilterSpec{FilterType: packets.FilterTypeICMP})
+	case vTcp, vSack:
+		d.vm = filterVM(packets.PacketFilterSpec{FilterType: packets.FilterTypeTCP, FilterConfig: packets.FilterConfig{
+			Src: netip.AddrPortFrom(addrOf(c.target), uint16(c.dport)), Dst: netip.AddrPortFrom(addrOf(c.local), uint16(c.sport))}})
+		d.vmHS = filterVM(packets.PacketFilterSpec{FilterType: packets.FilterTypeSYNACK, FilterConfig: packets.FilterConfig{Src: netip.AddrPortFrom(addrOf(c.target), uint16(c.dport))}})
+	}
 	switch c.variant {
 	case vIcmp:
 		icmp.VerifSetEchoCounter(c.echoCounter)
@@ -194,7 +215,11 @@ func (d *drvInst) recvX(frame []byte, tag string, expTTL int, expIP []byte) {
 			ttl, dest, rtt, ip = int(pr.TTL), pr.IsDest, pr.RTT, pr.IP.AsSlice()
 		}
 	}()
-	d.put(L(sxInt(1), sxInt(int64(at)), sxBytes(frame), sxInt(int64(expTTL)), sxBytes(expIP)), L(sxInt(int64(cls)), sxInt(int64(ttl)), sxBytes(ip), sxBool(dest), sxInt(int64(rtt))))
+	fpass := int64(-2) // -2: this variant has no filter for this family
+	if d.vm != nil {
+		fpass = vmRun(d.vm, etherFrame(frame))
+	}
+	d.put(L(sxInt(1), sxInt(int64(at)), sxBytes(frame), sxInt(int64(expTTL)), sxBytes(expIP)), L(sxInt(int64(cls)), sxInt(int64(ttl)), sxBytes(ip), sxBool(dest), sxInt(int64(rtt)), sxInt(fpass)))
 	d.tags["recv:"+tag]++
 	d.tags[fmt.Sprintf("recv_class_%d", cls)]++
 }
@@ -510,7 +535,16 @@ func (d *drvInst) handshake(frames [][]byte, tag string) bool {
 	if !ok {
 		is, ia, hts, tv, te = 0, 0, false, 0, 0
 	}
-	d.put(L(sxInt(2), sxInt(int64(at)), fs), L(sxInt(int64(status)), sxInt(int64(is)), sxInt(int64(ia)), sxBool(hts), sxInt(int64(tv)), sxInt(int64(te))))
+	// which of the handshake frames the SYN-ACK capture filter lets through
+	fp := sxList{}
+	for _, f := range frames {
+		v := int64(-2)
+		if d.vmHS != nil {
+			v = vmRun(d.vmHS, etherFrame(f))
+		}
+		fp = append(fp, sxInt(v))
+	}
+	d.put(L(sxInt(2), sxInt(int64(at)), fs), L(sxInt(int64(status)), sxInt(int64(is)), sxInt(int64(ia)), sxBool(hts), sxInt(int64(tv)), sxInt(int64(te)), fp))
 	d.tags["handshake:"+tag]++
 	// drain what the handshake left unread
 	for {
@@ -588,6 +622,9 @@ func runDrvConfig(t *testing.T, c drvCfg, r *rng, w *caseWriter, tags map[string
 				exp, eip := s.ttl, outerSrc(g.frame)
 				if g.tag == "ack_without_sack" {
 					exp, eip = -2, nil
+				}
+				if g.tag == "te6_hop_by_hop" {
+					exp = -3 // not one of the property's catalogue forms: matcher-level observation only
 				}
 				d.recvX(g.frame, g.tag, exp, eip)
 				full := thorough || i == 0
